@@ -8,6 +8,7 @@ import Proofs.C08_Formats
 import Proofs.C08_Indep
 import Proofs.C08_Shape
 import Proofs.C08_Values
+import Proofs.C08_Routes
 namespace Atomman.C08
 open Atomman Atomman.C07
 set_option linter.unusedSimpArgs false
